@@ -45,6 +45,10 @@ def decode_template(bs):
     return parts
 
 
+CURRENT_PROG = []       # the program under analysis (set by Program), for helpers that are looked through
+_FMT_BUSY = set()
+
+
 def format_parts(body, e):
     """e: E for a String produced by format!().  Returns [('lit', s)|('val', E)] or None."""
     e = strip_refs(e)
@@ -55,6 +59,28 @@ def format_parts(body, e):
     if e.k != "call":
         return None
     name = e.a[0]
+    # a private formatter (`fn wrap(split: &Split, item: impl AsRef<str>) -> String { format!("{}{}{}", split.a(), item.as_ref(), split.b()) }`):
+    # the parts of its own return value with its parameters replaced by the arguments of this call
+    prog = CURRENT_PROG[0] if CURRENT_PROG else None
+    if prog is not None and name in prog.fns and prog.fns[name].get("kind") != "Closure" and name not in _FMT_BUSY \
+            and prog.fns[name].get("output") == "std::string::String" and len(prog.fns[name]["mir"]["blocks"]) <= 40:
+        _FMT_BUSY.add(name)
+        try:
+            gb = prog.body(name)
+            inner = format_parts(gb, gb.expr_local(0)) if not gb.loops() else None
+        except Exception:
+            inner = None
+        finally:
+            _FMT_BUSY.discard(name)
+        if inner is None:
+            return None
+        args = e.a[1]
+
+        def sub(x):
+            if x.k == "arg" and 1 <= x.a[0] <= len(args):
+                return args[x.a[0] - 1]
+            return None
+        return [(k_, (v_.rebuild(sub) if k_ == "val" else v_)) for (k_, v_) in inner]
     # the same concatenation spelled `[a, b, c].concat()`
     if name.endswith("::concat") and len(e.a[1]) == 1:
         arr = strip_refs(e.a[1][0])
